@@ -136,7 +136,7 @@ def compare(prop, case, ob, mo, arrays, model_store, compare_store):
         return "[ext-C19F] implementation accepts where the store model rejects"
     res = res[1] if isinstance(res, tuple) and res and res[0] == "Some" else res
     open_legs, flags, defs, tens, atab, store = res
-    name = lambda k: f"n{k}"
+    name = (lambda k: ob["names"][int(k)]) if "names" in ob else (lambda k: f"n{k}")   # [str7] edited reference trees: arbitrary identifiers
     # --- per-instance obligations ------------------------------------------------------------------
     for what, flag in (("ft_hyp", hyp), ("wfb", flags[0]), ("wfsb", flags[1]), ("ft_result_ok", flags[2])):
         prop._inst[0] += 1
@@ -176,7 +176,7 @@ def compare(prop, case, ob, mo, arrays, model_store, compare_store):
             if raw.shape != ref.shape or not np.array_equal(raw, ref):
                 return f"[ext-C19F] raw tensor of {name(k)} is not atom {a} transposed by {pi}"
     # --- open legs: axes of the operator ------------------------------------------------------------
-    n = case["nnodes"]
+    n = ob.get("n", case["nnodes"])
     shape = ob["shape"]
     byid = {nrec[0]: nrec for nrec in ob["snap"]["nodes"]}
     for k, wires in open_legs:
